@@ -130,8 +130,23 @@ static result run_yscrambling(int learner, int loo, int fam) {
 
 #ifndef C06_FREE
 static void body(void) {
-  int driver = vx_choose("driver", 5);
+  int driver = vx_choose("driver", 6);
   { const char *only = getenv("C06_ONLY_DRIVER"); if (only && *only) vx_require(driver == atoi(only)); }   /* calibration aid, never set by run_check */
+  if (driver == 5) {            /* F: seeded k-means (random and k-means++ initialisers) for every thread count, default schedule */
+    int init = vx_choose("initialiser", 2), cfg = vx_choose("nthreads", 7), n = 11 + 4 * vx_choose("objects", 4), k = 2 + vx_choose("k-2", 3);
+    static const int NTF[7] = {1, 2, 3, 4, 5, 6, 8};
+    uint64_t h[2];
+    for (int pass = 0; pass < 2; pass++) {
+      matrix *m = mk(n, 2, 5, 0), *cen; uivector *lab; initMatrix(&cen); initUIVector(&lab);
+      CLOCK_TICKS = 0; vs_begin(1, 0); srand_(77u + (unsigned)init); KMeans(m, (size_t)k, init, lab, cen, (size_t)(pass ? NTF[cfg] : 1)); vs_end();
+      h[pass] = hm_hash(cen, vx_hash(lab->data, sizeof(size_t) * lab->size, 5));
+      DelMatrix(&m); DelMatrix(&cen); DelUIVector(&lab);
+    }
+    vx_transition(2);
+    char key[96]; snprintf(key, sizeof key, "threadcount|KMeans|%s", init ? "kmeans++" : "random");
+    vx_check(h[0] == h[1], key, "n=%d k=%d: labels/centroids with nthreads=%d differ from nthreads=1 after the same seed", n, k, NTF[cfg]);
+    vx_outcome(h[1]); return;
+  }
   if (driver == 4) {            /* D: YScrambling */
     int learner = vx_choose("learner", 2), loo = vx_choose("validation", 2), fam = vx_choose("data", 2);
     if (!vx_thorough()) vx_require(fam == 0 && learner == 1);   /* quick: MLR, one data set, both validation kinds */
@@ -215,7 +230,7 @@ int main(int argc, char **argv) {
   vx_describe("pass", "free-running real threads under ThreadSanitizer over the driver bodies (bootstrap CV with 2/4 workers, concurrent seeded callers, leave-one-out pools); a reported race terminates the worker and is attributed to the path");
   vx_set_shard_depth(2);
 #else
-  vx_describe("drivers", "A: BootstrapRandomGroupsCV 2 workers x {PLS,MLR,LDA} x 2 data sets; B: 3 workers (decision horizon 150); C: two user threads, each one of {random_kfold_group_generator, train_test_split, KMeansppCenters} after seeding; E: nthreads in {1,2,3,4,6,8} with 24 iterations under the default schedule; D: YScrambling (PLS, MLR) x (LOO, bootstrap validation with its hard-coded 4 workers x 100 iterations), 1 scrambling iteration, decision horizon 12 (20 thorough; quick: MLR on one data set only), preemption bound 1");
+  vx_describe("drivers", "A: BootstrapRandomGroupsCV 2 workers x {PLS,MLR,LDA} x 2 data sets; B: 3 workers (decision horizon 150); C: two user threads, each one of {random_kfold_group_generator, train_test_split, KMeansppCenters} after seeding; E: nthreads in {1,2,3,4,6,8} with 24 iterations under the default schedule; F: seeded KMeans (random / k-means++ initialiser) x objects {11,15,19,23} x k 2..4 x nthreads {1,2,3,4,5,6,8} equal to nthreads=1; D: YScrambling (PLS, MLR) x (LOO, bootstrap validation with its hard-coded 4 workers x 100 iterations), 1 scrambling iteration, decision horizon 12 (20 thorough; quick: MLR on one data set only), preemption bound 1");
   vx_describe("scheduling points", "pthread_create, thread exit, blocking pthread_join, entry of srand_/rand_/randInt/randDouble; exactly one thread runs at a time; enabled set ordered running-first then ascending id");
   vx_describe("bounds", "mode 0: all schedules with at most B preemptions (A, C: 2 quick / 3 thorough; B: 1 / 2), no state merging; mode 1: unbounded preemptions with merging on the canonical state (per-thread run state, draws, hash of received values; last srand_ argument in global order and draws since), state cap 200000 (A, B, C in both tiers)");
   vx_describe("oracle", "every complete schedule: result bit-identical to the default schedule and within 1e-12 of the single-thread run; concurrent seeded callers each equal their stand-alone outcome");
